@@ -121,6 +121,10 @@ def gen(rng, tier):
         else:
             strs += [bytes(t) for t in itertools.product(alpha, repeat=n)]
     strs += [b"yes", b"Yes", b"NO", b"true", b"False", b"FALSE", b"p-", b"g@lse", b"_none_", b"yes ", b" no", b"truee", b"on", b"off"]
+    # every accepted word, in three letter cases, with text behind it and in front of it (longer than the longest word)
+    for w in (b"yes", b"no", b"true", b"false", b"1", b"0", b"_none_"):
+        for v in (w, w.upper(), w.capitalize()):
+            strs += [v + x for x in (b"y", b"0", b"!", b" positive", b"\n  more", b"e", b"s", v)] + [x + v for x in (b"x", b"0", b"un", b"-")]
     batch(strs, ["bool"], "bool")
     batch(float_literals(rng, 900 if tier == "quick" else 30000), ["float", "double"], "flit")
     # every getter after every other: the result of a conversion must not depend on the conversions before it
